@@ -76,6 +76,11 @@ TStatus ==
       <<"C08_state", Ev.exit = 0 /\ \A t \in Shown(S(Ev.sel)) \cap DOMAIN Ev.table :
                          Snap[t] \in {"S", "R", "X", "K"} => Ev.table[t] = Table[t],
                     \E t \in Shown(S(Ev.sel)) : Snap[t] \in {"S", "R", "X", "K"}>>,
+      (* a tracked job the scheduler has no record of any more (purged, or of an earlier pool): the file-based *)
+      (* decision, never the state of some other job                                                          *)
+      <<"C08_gone_job_falls_back", Ev.exit = 0 /\ \A t \in Shown(S(Ev.sel)) \cap DOMAIN Ev.table :
+                         (trk[t] # NoJob /\ jobs[trk[t]].gone) => Ev.table[t] = Table[t],
+                    \E t \in Shown(S(Ev.sel)) : trk[t] # NoJob /\ jobs[trk[t]].gone>>,
       <<"C06_all_completed", (Drained /\ Ev.exit = 0) =>
             \A t \in Cone(W3, conv.sel) \cap Shown(S(Ev.sel)) \cap DOMAIN Ev.table : w.out[t] # {} => Ev.table[t] = "completed",
             Drained /\ \E j \in JobIds : jobs[j].st = "OK">>,
